@@ -157,6 +157,13 @@ theorem opWuwx_inv (fuel : Nat) : ∀ (s : State) (c k : String) (names : List S
           | exact opWriteWithXattrs_inv hI _ _ _ _ _ _ _ _ _ _ hs)
       | split)
 
+theorem opSubdocWrite_inv (s : State) (c k path : String) (cas : Nat) (v : Option String) (ins : Bool) (hs : I s) :
+    I (opSubdocWrite s c k path cas v ins).1 := by
+  unfold opSubdocWrite
+  split
+  · exact hs
+  · exact opWriteCas_inv hI _ _ _ _ _ _ _ hs
+
 theorem opTouch_inv (s : State) (c k : String) (exp : Nat) (hs : I s) : I (opTouch s c k exp).1 := hI.touchOp s c k exp hs
 
 /-- One step preserves the invariant. -/
@@ -201,6 +208,9 @@ theorem step_inv (s : State) (op : Op) (hwf : W op) (hs : I s) : I (step s op).1
   | lastCas c => exact hs
   | keys c => exact hs
   | expState => exact hs
+  | wsd c k path cas v => exact opSubdocWrite_inv hI _ _ _ _ _ _ _ hs
+  | sdi c k path cas v => exact opSubdocWrite_inv hI _ _ _ _ _ _ _ hs
+  | gsd c k path => exact hs
   | draw => exact hI.draw s hs
   | restart p => exact hI.restart s p hs
 
